@@ -1,5 +1,5 @@
 import LPVerif.Lemmas.CoreExec
-import LPVerif.Model.Prof
+import LPVerif.Lemmas.Prof
 /-!
 # C04 — statistics belong only to the function that actually ran
 
@@ -96,16 +96,21 @@ theorem attribution_closed (evs : List Ev) (regs) (lines : List Int) (b : Blk) (
   intro c _
   exact h.2.1 c l
 
-/-- a byte-identical function registered second is padded: its block differs from the first one's -/
-theorem twin_gets_fresh_block (dupes : List (Blk × Nat)) (code : Prof.Code) (n : Nat)
+/-- a byte-identical function registered second is padded: its block differs from the first one's — and from the
+    bytecode of *every* code object registered so far (`taken`), whatever was registered or re-registered before
+    (repair of F-C04b: `len(dupes_map[co_code]) + 1` NOPs alone are not unique across re-registrations) -/
+theorem twin_gets_fresh_block (dupes : List (Blk × Nat)) (taken : List Blk) (code : Prof.Code) (n : Nat)
     (h : Prof.alookup code.blk dupes = some n) :
-    (Prof.padStep dupes code).1.blk ≠ code.blk ∧ (Prof.padStep dupes code).1.blk.base = code.blk.base := by
-  simp only [Prof.padStep, h]
-  constructor
-  · intro heq
+    (Prof.padStep dupes taken code).1.blk ≠ code.blk ∧ (Prof.padStep dupes taken code).1.blk.base = code.blk.base ∧
+    (Prof.padStep dupes taken code).1.blk ∉ taken := by
+  refine ⟨?_, ?_, Prof.padStep_fresh dupes taken code n h⟩
+  · simp only [Prof.padStep, h]
+    intro heq
     have := congrArg Blk.pad heq
-    simp at this
-  · trivial
+    have hge := Prof.findFree_ge taken code.blk.base (Prof.maxPad taken + 1) (code.blk.pad + (n + 2))
+    simp only at this
+    omega
+  · simp only [Prof.padStep, h]
 
 /-- **F-C04a witness**: block ⟨0,0⟩ line 2 is registered (function f); an *unregistered* byte-identical
     function running on the same line number (frame 9) produces events the callback cannot tell from f's:
@@ -115,5 +120,19 @@ theorem alias_witness :
       [⟨0, 1, ⟨0,0⟩, 2, true, 0, 0⟩, ⟨0, 1, ⟨0,0⟩, 2, false, 0, 0⟩,      -- f, frame 1
        ⟨0, 9, ⟨0,0⟩, 2, true, 0, 0⟩, ⟨0, 9, ⟨0,0⟩, 2, false, 0, 0⟩])     -- the unregistered twin, frame 9
       [2] ⟨0,0⟩ 2 = 2 := by decide
+
+/-- **F-C04b (repaired)**: the history that used to give two functions the same padded bytecode — four byte-identical
+    functions f, t, u, v (labels 0-3) on the same line numbers, registered f, t, t, t, f, u, v — now pads `v` past the
+    6 NOPs `t` already has (real code: `corpus/C04/f-c04b-padding-clash.json`). -/
+theorem padding_clash_repaired :
+    let code (lab : Nat) : Prof.Code := ⟨⟨0, 0⟩, lab, [5, 6]⟩
+    let r1 := Prof.padStep [] [] (code 0)                                   -- add f
+    let r2 := Prof.padStep r1.2 [r1.1.blk] (code 1)                         -- add t      (3 NOPs)
+    let r3 := Prof.padStep r2.2 [r1.1.blk, r2.1.blk] r2.1                   -- add t again: its padded bytes are new to dupes_map
+    let r4 := Prof.padStep r3.2 [r1.1.blk, r2.1.blk] r3.1                   -- add t again: 6 NOPs
+    let r5 := Prof.padStep r4.2 [r1.1.blk, r2.1.blk, r4.1.blk] r1.1         -- add f again (4 NOPs)
+    let r6 := Prof.padStep r5.2 [r1.1.blk, r2.1.blk, r4.1.blk, r5.1.blk] (code 2)             -- add u (5 NOPs)
+    let r7 := Prof.padStep r6.2 [r1.1.blk, r2.1.blk, r4.1.blk, r5.1.blk, r6.1.blk] (code 3)   -- add v: 6 is taken -> 7
+    r4.1.blk = ⟨0, 6⟩ ∧ r7.1.blk = ⟨0, 7⟩ := by decide
 
 end LPVerif.Props.C04
